@@ -106,3 +106,136 @@ package entropy
 //@   panics true                                                                  #panics-not-claimed
 //@   atalloc alloclen <= 2*len(block) + 128                                       #allocation-bounded-by-the-block-length
 //@   atcall InputBitStream.ReadArray arg2 <= 8*len(this.buffer)                    #chunk-length-checked-against-the-buffer
+
+//@ -- ------------------------------------------------------------------ entropy codec pieces in reach (C12)
+//@ -- NONE codec: encoder and decoder follow the same chunk schedule, a function of
+//@ -- len(block) only: chunk k starts at byte k*2^23 and carries min(2^23, rest) bytes.
+//@ -- The identical atcall clause on both sides is the mirror; the counters give
+//@ -- "the decoder reads exactly the number of bits the encoder wrote".
+//@ func (*NullEntropyEncoder) Write
+//@   mode int
+//@   props C12
+//@   requires this.bitstream != nil && !this.bitstream.oclosed && !this.bitstream.ofailed
+//@   ensures result1 == nil && result0 == len(block)                                                     #whole-block-accepted
+//@   ensures this.bitstream.wbits == old(this.bitstream.wbits) + 8*len(block)                             #bits-written-8-per-byte
+//@   atcall WriteArray idx % 8388608 == 0 && len(arg1) == len(block) - idx && arg2 == 8*(len(block) - idx < 8388608 ? len(block) - idx : 8388608)       #chunk-schedule
+//@   panics this.bitstream.ofailed
+//@   modifies this.bitstream.wbits, this.bitstream.ofailed, this.bitstream.tapeV, this.bitstream.tapeW
+//@   loop 1 invariant 0 <= idx && idx + count == len(block) && count >= 0 && (count == 0 || idx % 8388608 == 0) && res == idx && this.bitstream.wbits == old(this.bitstream.wbits) + 8*idx && !this.bitstream.oclosed
+//@   loop 1 decreases count
+
+//@ func (*NullEntropyDecoder) Read
+//@   mode int
+//@   props C12
+//@   requires this.bitstream != nil && !this.bitstream.iclosed
+//@   ensures result1 == nil && result0 == len(block)                                                     #whole-block-filled
+//@   ensures this.bitstream.rbitsI == old(this.bitstream.rbitsI) + 8*len(block)                           #bits-read-8-per-byte
+//@   atcall ReadArray idx % 8388608 == 0 && len(arg1) == len(block) - idx && arg2 == 8*(len(block) - idx < 8388608 ? len(block) - idx : 8388608)       #chunk-schedule
+//@   panics this.bitstream.ieof
+//@   modifies block[*], this.bitstream.rbitsI, this.bitstream.ieof, this.bitstream.aligned, this.bitstream.ipos
+//@   loop 1 invariant 0 <= idx && idx + count == len(block) && count >= 0 && (count == 0 || idx % 8388608 == 0) && res == idx && this.bitstream.rbitsI == old(this.bitstream.rbitsI) + 8*idx && !this.bitstream.iclosed
+//@   loop 1 decreases count
+
+//@ -- varint pair: enc(v) is 1..5 tokens of 8 bits, little-endian groups of 7 bits, the
+//@ -- high bit marks continuation. vbK(v) is the K-th byte of enc(v), vnb(v) their number;
+//@ -- vdec/vlen are what the decoder computes from the bytes it meets. The lemma
+//@ -- varint_roundtrip closes the pair: vdec(enc(v)) == v and vlen(enc(v)) == vnb(v).
+//@ spec vnb(v uint32) = v < 128 ? 1 : (v < 16384 ? 2 : (v < 2097152 ? 3 : (v < 268435456 ? 4 : 5)))
+//@ spec vb0(v uint32) = v < 128 ? v : 128 + v % 128
+//@ spec vb1(v uint32) = v < 16384 ? v / 128 : 128 + (v / 128) % 128
+//@ spec vb2(v uint32) = v < 2097152 ? v / 16384 : 128 + (v / 16384) % 128
+//@ spec vb3(v uint32) = v < 268435456 ? v / 2097152 : 128 + (v / 2097152) % 128
+//@ spec vb4(v uint32) = v / 268435456
+
+//@ func WriteVarInt
+//@   mode int
+//@   props C12
+//@   requires bs != nil && !bs.oclosed && !bs.ofailed
+//@   ensures result == vnb(old(value))                                                                  #byte-count
+//@   ensures bs.wbits == old(bs.wbits) + 8*result                                                        #bits-written
+//@   ensures len(bs.tapeV) == old(len(bs.tapeV)) + result && len(bs.tapeW) == len(bs.tapeV)              #tokens-appended
+//@   ensures forall k :: old(len(bs.tapeV)) <= k && k < len(bs.tapeV) ==> bs.tapeW[k] == 8              #all-tokens-8-bits
+//@   ensures bs.tapeV[old(len(bs.tapeV))] == vb0(old(value))                                             #byte0
+//@   ensures result >= 2 ==> bs.tapeV[old(len(bs.tapeV)) + 1] == vb1(old(value))                        #byte1
+//@   ensures result >= 3 ==> bs.tapeV[old(len(bs.tapeV)) + 2] == vb2(old(value))                        #byte2
+//@   ensures result >= 4 ==> bs.tapeV[old(len(bs.tapeV)) + 3] == vb3(old(value))                        #byte3
+//@   ensures result >= 5 ==> bs.tapeV[old(len(bs.tapeV)) + 4] == vb4(old(value))                        #byte4
+//@   ensures forall k :: 0 <= k && k < old(len(bs.tapeV)) ==> bs.tapeV[k] == old(bs.tapeV[k]) && bs.tapeW[k] == old(bs.tapeW[k])      #earlier-tokens-kept
+//@   panics bs.ofailed
+//@   modifies bs.wbits, bs.ofailed, bs.tapeV, bs.tapeW
+//@   loop 1 invariant 1 <= res && res <= 5 && !bs.oclosed && bs.wbits == old(bs.wbits) + 8*(res - 1) && len(bs.tapeV) == old(len(bs.tapeV)) + res - 1 && (res >= 2 ==> len(bs.tapeW) == len(bs.tapeV))
+//@   loop 1 invariant (res == 1 ==> value == old(value)) && (res == 2 ==> value == old(value) / 128 && old(value) >= 128) && (res == 3 ==> value == old(value) / 16384 && old(value) >= 16384) && (res == 4 ==> value == old(value) / 2097152 && old(value) >= 2097152) && (res == 5 ==> value == old(value) / 268435456 && old(value) >= 268435456)
+//@   loop 1 invariant (res >= 2 ==> bs.tapeV[old(len(bs.tapeV))] == 128 + old(value) % 128) && (res >= 3 ==> bs.tapeV[old(len(bs.tapeV)) + 1] == 128 + (old(value) / 128) % 128) && (res >= 4 ==> bs.tapeV[old(len(bs.tapeV)) + 2] == 128 + (old(value) / 16384) % 128) && (res >= 5 ==> bs.tapeV[old(len(bs.tapeV)) + 3] == 128 + (old(value) / 2097152) % 128)
+//@   loop 1 invariant forall k :: old(len(bs.tapeV)) <= k && k < len(bs.tapeV) ==> bs.tapeW[k] == 8
+//@   loop 1 invariant forall k :: 0 <= k && k < old(len(bs.tapeV)) ==> bs.tapeV[k] == old(bs.tapeV[k]) && bs.tapeW[k] == old(bs.tapeW[k])
+//@   loop 1 decreases value
+
+//@ spec vlen(b0 int, b1 int, b2 int, b3 int) = b0 < 128 ? 1 : (b1 < 128 ? 2 : (b2 < 128 ? 3 : (b3 < 128 ? 4 : 5)))
+//@ spec vdec(b0 int, b1 int, b2 int, b3 int, b4 int) = b0 < 128 ? b0 : (b1 < 128 ? b0 % 128 + 128*b1 : (b2 < 128 ? b0 % 128 + 128*(b1 % 128) + 16384*b2 : (b3 < 128 ? b0 % 128 + 128*(b1 % 128) + 16384*(b2 % 128) + 2097152*b3 : b0 % 128 + 128*(b1 % 128) + 16384*(b2 % 128) + 2097152*(b3 % 128) + 268435456*(b4 % 16))))
+
+//@ -- ReadVarInt on a tape whose next tokens are 8 bits wide: the value and the number of
+//@ -- tokens consumed are vdec/vlen of the bytes met (B0..B4 = the tokens' values mod 256).
+//@ func ReadVarInt
+//@   mode int
+//@   opt bitops cases
+//@   props C12
+//@   requires bs != nil && !bs.iclosed && bs.aligned && 0 <= bs.ipos
+//@   requires bs.ipos + vlen(bs.itapeV[bs.ipos] % 256, bs.itapeV[bs.ipos + 1] % 256, bs.itapeV[bs.ipos + 2] % 256, bs.itapeV[bs.ipos + 3] % 256) <= len(bs.itapeW)
+//@   requires forall k :: bs.ipos <= k && k < bs.ipos + vlen(bs.itapeV[bs.ipos] % 256, bs.itapeV[bs.ipos + 1] % 256, bs.itapeV[bs.ipos + 2] % 256, bs.itapeV[bs.ipos + 3] % 256) ==> bs.itapeW[k] == 8
+//@   requires forall k :: bs.ipos <= k && k < bs.ipos + 5 ==> 0 <= bs.itapeV[k]
+//@   ensures result == vdec((old(bs.itapeV[bs.ipos]) % 256), (old(bs.itapeV[bs.ipos + 1]) % 256), (old(bs.itapeV[bs.ipos + 2]) % 256), (old(bs.itapeV[bs.ipos + 3]) % 256), (old(bs.itapeV[bs.ipos + 4]) % 256))                      #value-decoded
+//@   ensures bs.ipos == old(bs.ipos) + vlen((old(bs.itapeV[bs.ipos]) % 256), (old(bs.itapeV[bs.ipos + 1]) % 256), (old(bs.itapeV[bs.ipos + 2]) % 256), (old(bs.itapeV[bs.ipos + 3]) % 256)) && bs.aligned       #tokens-consumed
+//@   ensures bs.rbitsI == old(bs.rbitsI) + 8*(bs.ipos - old(bs.ipos))                                   #bits-read
+//@   panics bs.ieof
+//@   modifies bs.rbitsI, bs.ieof, bs.aligned, bs.ipos
+//@   loop 1 invariant 0 <= i && i <= 4 && shift == 7*i && bs.ipos == old(bs.ipos) + i && bs.aligned && !bs.iclosed && bs.rbitsI == old(bs.rbitsI) + 8*i
+//@   loop 1 invariant (i >= 1 ==> (old(bs.itapeV[bs.ipos]) % 256) >= 128) && (i >= 2 ==> (old(bs.itapeV[bs.ipos + 1]) % 256) >= 128) && (i >= 3 ==> (old(bs.itapeV[bs.ipos + 2]) % 256) >= 128) && (i >= 4 ==> (old(bs.itapeV[bs.ipos + 3]) % 256) >= 128)
+//@   loop 1 invariant (i == 0 ==> res == 0) && (i == 1 ==> res == (old(bs.itapeV[bs.ipos]) % 256) % 128) && (i == 2 ==> res == (old(bs.itapeV[bs.ipos]) % 256) % 128 + 128*((old(bs.itapeV[bs.ipos + 1]) % 256) % 128)) && (i == 3 ==> res == (old(bs.itapeV[bs.ipos]) % 256) % 128 + 128*((old(bs.itapeV[bs.ipos + 1]) % 256) % 128) + 16384*((old(bs.itapeV[bs.ipos + 2]) % 256) % 128)) && (i == 4 ==> res == (old(bs.itapeV[bs.ipos]) % 256) % 128 + 128*((old(bs.itapeV[bs.ipos + 1]) % 256) % 128) + 16384*((old(bs.itapeV[bs.ipos + 2]) % 256) % 128) + 2097152*((old(bs.itapeV[bs.ipos + 3]) % 256) % 128))
+//@   loop 1 decreases 4 - i
+
+//@ lemma varint_roundtrip(v int)
+//@   props C12
+//@   requires 0 <= v && v < 4294967296
+//@   ensures vdec(vb0(v), vb1(v), vb2(v), vb3(v), vb4(v)) == v && vlen(vb0(v), vb1(v), vb2(v), vb3(v)) == vnb(v)
+
+//@ -- alphabet header pair. EncodeAlphabet: the mode bit, then for a partial alphabet the
+//@ -- index of the last presence byte on 5 bits and lastMask+1 presence bytes. DecodeAlphabet:
+//@ -- never faults on any tape content, never reports an error when the caller's table has
+//@ -- 256 entries (all callers), returns a strictly increasing list of symbols < 256 and
+//@ -- consumes the same tokens (1+1 bits, or 1+5 bits and 8*(lastMask+1) array bits).
+//@ func EncodeAlphabet
+//@   mode int
+//@   props C12
+//@   requires obs != nil && !obs.oclosed && !obs.ofailed
+//@   requires forall k :: 0 <= k && k < len(alphabet) ==> 0 <= alphabet[k] && alphabet[k] < 256 && (k > 0 ==> alphabet[k-1] < alphabet[k])
+//@   ensures result1 == nil <==> len(alphabet) <= 256                                                    #accepts-up-to-256
+//@   ensures result1 == nil ==> result0 == len(alphabet)                                                 #count-returned
+//@   ensures result1 == nil && (len(alphabet) == 0 || len(alphabet) == 256) ==> obs.wbits == old(obs.wbits) + 2            #full-or-empty-two-bits
+//@   ensures result1 == nil && 0 < len(alphabet) && len(alphabet) < 256 ==> obs.wbits == old(obs.wbits) + 6 + 8*(alphabet[len(alphabet)-1] / 8 + 1)      #partial-bits-written
+//@   atcall WriteBits arg2 == 5 && arg1 == alphabet[len(alphabet)-1] / 8 && arg1 < 32                   #last-mask-on-5-bits
+//@   atcall WriteArray arg2 == 8*(alphabet[len(alphabet)-1] / 8 + 1) && len(arg1) == 32                 #presence-bytes-up-to-last-mask
+//@   panics obs.ofailed
+//@   modifies obs.wbits, obs.ofailed, obs.tapeV, obs.tapeW
+//@   loop 1 invariant 0 <= i && i <= count && count == len(alphabet) && !obs.oclosed && obs.wbits == old(obs.wbits) + 1
+//@   loop 1 decreases count - i
+
+//@ func DecodeAlphabet
+//@   mode int
+//@   props C12 C03
+//@   requires ibs != nil && !ibs.iclosed
+//@   ensures len(alphabet) >= 256 ==> result1 == nil                                                     #no-error-with-a-full-table
+//@   ensures result1 == nil ==> 0 <= result0 && result0 <= 256 && result0 <= len(alphabet)               #count-in-range
+//@   ensures result1 == nil ==> (forall k :: 0 <= k && k < result0 ==> 0 <= alphabet[k] && alphabet[k] < 256 && (k > 0 ==> alphabet[k-1] < alphabet[k]))      #symbols-sorted-below-256
+//@   ensures ibs.rbitsI == old(ibs.rbitsI) + 2 || (ibs.rbitsI >= old(ibs.rbitsI) + 14 && ibs.rbitsI <= old(ibs.rbitsI) + 262 && (ibs.rbitsI - old(ibs.rbitsI) - 6) % 8 == 0)       #bits-read-mirror-the-encoder
+//@   atcall ReadBits arg1 == 5                                                                           #last-mask-on-5-bits
+//@   atcall ReadArray arg2 == 8*(lastMask + 1) && len(arg1) == 32 && 0 <= lastMask && lastMask < 32      #presence-bytes-up-to-last-mask
+//@   panics ibs.ieof
+//@   modifies alphabet[*], ibs.rbitsI, ibs.ieof, ibs.aligned, ibs.ipos
+//@   loop 1 invariant 0 <= i && i <= 256 && alphabetSize == 256 && 256 <= len(alphabet) && (forall k :: 0 <= k && k < i ==> alphabet[k] == k)
+//@   loop 1 decreases 256 - i
+//@   loop 2 invariant 0 <= i && i <= lastMask + 1 && 0 <= lastMask && lastMask < 32 && 0 <= count && count <= 8*i && count <= len(alphabet)
+//@   loop 2 invariant forall k :: 0 <= k && k < count ==> 0 <= alphabet[k] && alphabet[k] < 8*i && (k > 0 ==> alphabet[k-1] < alphabet[k])
+//@   loop 2 decreases lastMask + 1 - i
+//@   loop 3 invariant 0 <= j && j <= 8 && n == 8*i && 0 <= i && i <= lastMask && 0 <= lastMask && lastMask < 32 && 0 <= count && count <= 8*i + j && count <= len(alphabet)
+//@   loop 3 invariant forall k :: 0 <= k && k < count ==> 0 <= alphabet[k] && alphabet[k] < 8*i + j && (k > 0 ==> alphabet[k-1] < alphabet[k])
+//@   loop 3 decreases 8 - j
